@@ -52,7 +52,7 @@ pub enum Node {
     /// and the child: what the child sent before finishing is there before its completion, wherever
     /// the two are placed: arg*31 + arg+1. (Only with the receive source written first: with the
     /// process first, both can be ready at one evaluation and written order legitimately decides.)
-    SendThenFinish { spin: u32, msg_first: bool },
+    SendThenFinish { spin: u32, msg_first: bool, last: bool },
 }
 
 pub struct Gen {
@@ -118,7 +118,7 @@ impl Gen {
                             if rng.chance(1, 2) {
                                 Node::SelRace { spin: *rng.pick(&[0u32, 0, 3, 8, 20, 60]) }
                             } else {
-                                Node::SendThenFinish { spin: *rng.pick(&[0u32, 5, 30, 120]), msg_first: true }
+                                Node::SendThenFinish { spin: *rng.pick(&[0u32, 5, 30, 120]), msg_first: true, last: rng.chance(1, 2) }
                             }
                         }
                     }
@@ -247,15 +247,23 @@ impl Gen {
                 self.defs.push(format!("{name} = #'int {{ =n, c = n @#'int {{ =m, {sp}[[0x0a0b, {reps}] __binary_repeat__, 0xff] __binary_concat__ }}, b = !c, [b __binary_length__, n] __integer_add__ }}"));
                 name
             }
-            Node::SendThenFinish { spin, msg_first } => {
+            Node::SendThenFinish { spin, msg_first, last } => {
                 self.procs += 3;
                 if !self.defs.iter().any(|d| d.starts_with("stf = ")) {
                     self.defs.push("stf = #[(@-> 'int), (@'int), 'int] { =[g, to, m], x = !g, m to, [m, 1] __integer_add__ }".to_string());
+                    // the send is the child's LAST instruction: it finishes in the very executor step that
+                    // routes the message, so the worker reports the completion and the message together
+                    self.defs.push("stl = #[(@-> 'int), (@'int), 'int] { =[g, to, m], x = !g, m to }".to_string());
+                    self.defs.push("stpick = #('int | (@'int)) { | ='int => ~ | 999983 }".to_string());
                     self.defs.push("rel = #[(@'int), 'int] { =[t, s], w = [s, 0] spin, 1 t }".to_string());
                 }
                 let name = self.fresh();
                 let sel = if *msg_first { "! [#'int, p]" } else { "! [p, #'int]" };
-                self.defs.push(format!("{name} = #'int {{ =n, me = &., g = @blk, p = [&g, &me, n] @stf, r = [&g, {spin}] @rel, y = {sel}, [[y, 31] __integer_multiply__, !p] __integer_add__ }}"));
+                if *last {
+                    self.defs.push(format!("{name} = #'int {{ =n, me = &., g = @blk, p = [&g, &me, n] @stl, r = [&g, {spin}] @rel, y = {sel} stpick, z = !p, [[y, 31] __integer_multiply__, [n, 1] __integer_add__] __integer_add__ }}"));
+                } else {
+                    self.defs.push(format!("{name} = #'int {{ =n, me = &., g = @blk, p = [&g, &me, n] @stf, r = [&g, {spin}] @rel, y = {sel}, [[y, 31] __integer_multiply__, !p] __integer_add__ }}"));
+                }
                 name
             }
             Node::SelRace { spin } => {
@@ -407,10 +415,11 @@ pub fn shape(node: &Node, h: &mut crate::rng::Fnv) {
         }
         Node::RefKids => h.u64(11),
         Node::SelTwice => h.u64(12),
-        Node::SendThenFinish { spin, msg_first } => {
+        Node::SendThenFinish { spin, msg_first, last } => {
             h.u64(14);
             h.u64(*spin as u64);
             h.u64(*msg_first as u64);
+            h.u64(*last as u64);
         }
         Node::SelRace { spin } => {
             h.u64(13);
